@@ -32,6 +32,18 @@ LEVEL_NOTE = ""
 
 META = "()[],:;"
 
+def _glue_eof(case):
+    """known finding C01-glue-eof-at-buffer-multiple: text length a multiple of the 4096-byte bufio buffer"""
+    if case.get("kind") != "ORACLE" or not case.get("fields"):
+        return False
+    if "utils.ReadMultiTrees rejects the writer's output: EOF" not in case["fields"][0]:
+        return False
+    obs = parse_sexp(case.get("obs") or "()")
+    txt = alist(obs).get("text")
+    return isinstance(txt, str) and len(txt.encode("utf-8", "surrogateescape")) % 4096 == 0
+
+MATCHERS = {"C01-glue-eof-at-buffer-multiple": _glue_eof}
+
 def fdec(x):
     """exact decimal text of a dyadic Fraction"""
     x = Fraction(x)
@@ -344,7 +356,7 @@ def _filler(frng, i):
     e = _edge(Fraction(3 * i % 128, 64), sup=None if inner["name"] else Fraction(i % 65, 64), pv=None)
     if e["sup"] is not None and i % 6 == 1:
         e["pv"] = Fraction(1, 1024)
-    return [(e, inner), (_edge(Fraction(-(i % 5) - 2, 4)), c)]
+    return [(e, inner), (_edge(Fraction(-(i % 5) - 2, 8)), c)]
 
 # class -> (node builder, marker bytes, offsets within the marker to align)
 def _target(cls):
